@@ -141,6 +141,7 @@ def step (st : State) (line : String) : State × String :=
         | .concat => (concatenateFull [st.cur, st.aux]).toState st
         | .concat3 => (concatenateFull [st.cur, st.aux, st.cur]).toState st
         | .offset k => (offsetFull st.cur k).toState st
+        | .dup => (match copyFull st.cur with | .ok b => .ok { st with aux := b } | .err e => .err e | .crash => .crash | .ub => .ub)
         | op => apply st op
       match r with
       | .ok st' =>
